@@ -1334,7 +1334,11 @@ impl FdlActiveStation {
         self.state
             .transition_pass_token(DoGap::Yes, PassTokenAttempt::First);
 
-        PollDone::waiting_for_delay()
+        // Immediately evaluate PassToken state because the synchronization pause has already
+        // elapsed and the bus is free for immediate transmission.  Waiting for another poll
+        // cycle here would make the turnaround so slow that the previous token holder's slot
+        // timer can expire before our first character arrives.
+        self.do_pass_token(now, phy)
     }
 
     fn do_await_data_response<PHY: ProfibusPhy>(
